@@ -161,9 +161,18 @@ func Domain(n int)                         {}
 // RealReference: under gosym, interpret the real reference engine instead of the counting model.
 func RealReference() {}
 
-func Yield()                      { runtime.Gosched() }
+func Yield() { runtime.Gosched() }
+
+// LetOthersRun: under gosym the calling goroutine is parked until every other goroutine has
+// blocked or finished; natively it sleeps a little.
+func LetOthersRun() {
+	for i := 0; i < 50; i++ {
+		runtime.Gosched()
+	}
+	time.Sleep(5 * time.Millisecond)
+}
 func PoolNondet()                 {}
-func SetGOMAXPROCS(n int)         {}
+func SetGOMAXPROCS(n int)         { runtime.GOMAXPROCS(n) }
 func ReadOnly(name string, p any) {}
 
 // Counter reads an executor-maintained counter; natively only "faults-fired" is kept.
